@@ -190,12 +190,35 @@ fn plant(src: &mut Src) -> Planted {
         ("length(abs(`1`), nope2(@))", "nope2(", "UnknownFunction"),
         ("[abs(`-1`), length(`1`), abs(`2`)]", "length(", "InvalidType"),
         ("to_array(`1`)[*].abs('x')", "abs(", "InvalidType"),
+        // by-functions failing on the return type after their reference ran nested
+        // by-functions whose own references ran further (successful) calls
+        ("sort_by(`[[1], [2]]`, &map(&type(@), @))", "sort_by(", "InvalidReturnType"),
+        ("min_by(`[[1], [2]]`, &max_by(@, &length(to_array(@))) == `1`)", "min_by(", "InvalidReturnType"),
+        ("max_by(`[[3, 1], [2]]`, &sort_by(@, &abs(@)))", "max_by(", "InvalidReturnType"),
+        ("sort_by(`[[\"b\"], [\"a\"]]`, &map(&length(@), sort_by(@, &to_string(@))))", "sort_by(", "InvalidReturnType"),
+        ("sort_by(`[[1], [2]]`, &map(&type(@), @)) | nope(@)", "sort_by(", "InvalidReturnType"),
+        ("map(&sort_by(@, &to_string(abs(@))), `[[2, 1]]`) | sort_by(@, &to_array(@))", "sort_by(@, &to_array", "InvalidReturnType"),
     ];
     let (ftext, marker, kind) = faults[src.below(faults.len())];
     let at = ftext.find(marker).expect("marker");
-    let (flo, fhi) = if kind == "InvalidSlice" { (at, at + marker.len() - 1) } else { (at + marker.len() - 1, at + marker.len() - 1) };
+    // for calls the marker starts with the function name: the position is its first '('
+    let paren = at + marker.find('(').unwrap_or(marker.len() - 1);
+    let (flo, fhi) = if kind == "InvalidSlice" { (at, at + marker.len() - 1) } else { (paren, paren) };
     let slice_fault = kind == "InvalidSlice";
-    let (pre, post, in_expref): (String, String, bool) = match src.below(12) {
+    let (pre, post, in_expref): (String, String, bool) = match src.below(15) {
+        12 => {
+            // a long single line in front of the fault (column thresholds)
+            let n = src.size(400);
+            (format!("[{}", "`1`, ".repeat(n)), "][-1]".into(), false)
+        }
+        13 => {
+            let n = src.size(300);
+            (format!("'{}' | ", "é".repeat(n)), String::new(), false)
+        }
+        14 => {
+            let n = src.size(300);
+            (format!("{}not_null(z, ", " ".repeat(n)), ")".into(), false)
+        }
         0 => (String::new(), String::new(), false),
         1 => (format!("'{}' | ", junk(src)), String::new(), false),
         2 => ("xs[*].not_null(".into(), ")".into(), false),
